@@ -1,0 +1,13 @@
+//go:build verif
+
+package fw
+
+import (
+	"github.com/named-data/ndnd/fw/defn"
+	"github.com/named-data/ndnd/fw/table"
+)
+
+func (t *Thread) VerifIncomingInterest(p *defn.Pkt) { t.processIncomingInterest(p) }
+func (t *Thread) VerifIncomingData(p *defn.Pkt)     { t.processIncomingData(p) }
+func (t *Thread) VerifPitCS() table.PitCsTable      { return t.pitCS }
+func (t *Thread) VerifDNL() *table.DeadNonceList    { return t.deadNonceList }
